@@ -219,6 +219,15 @@ func (ss *Package) buildOneofSchema(srcMsg protoreflect.MessageDescriptor, _ *ex
 		}
 	}
 
+	// the key of the one member is all there is to tell them apart
+	seenNames := map[string]struct{}{}
+	for _, prop := range properties {
+		if _, ok := seenNames[prop.JSONName]; ok {
+			return nil, fmt.Errorf("%s has more than one property named %q", srcMsg.FullName(), prop.JSONName)
+		}
+		seenNames[prop.JSONName] = struct{}{}
+	}
+
 	oneofSchema.Properties = properties
 
 	return oneofSchema, nil
